@@ -1010,6 +1010,9 @@ class TestResult(unittest.TestResult):
             self._restoreStdStreams()
         unittest.TestResult.addSkip(self, test, reason)
         self.options.output.test_skipped(test, reason)
+        # The rest of a skipped test (tearDown, cleanups) still runs: keep
+        # its output out of the way, ``stopTest`` restores the streams.
+        self._setUpStdStreams()
 
     def addSubTest(self, test, subtest, exc_info):
         if exc_info is None:
